@@ -2,10 +2,12 @@
 #![allow(clippy::too_many_arguments)]
 mod chooser;
 mod conc;
+mod confrun;
 mod content;
 mod crash;
 mod crashrun;
 mod faultrun;
+mod malrun;
 mod model;
 mod props;
 mod qspec;
@@ -15,6 +17,67 @@ mod workload;
 mod world;
 
 use props::{Kind, Override, Profile, RunOut};
+use std::alloc::{GlobalAlloc, Layout, System};
+use std::sync::atomic::{AtomicUsize, Ordering};
+
+/// counting allocator: current and peak heap use (C14 bounds the memory a
+/// malformed image may make the library allocate); requests beyond 4 GiB are
+/// refused like a real allocator under `ulimit -v` would
+pub static MEM_CUR: AtomicUsize = AtomicUsize::new(0);
+pub static MEM_PEAK: AtomicUsize = AtomicUsize::new(0);
+pub static MEM_REFUSED: AtomicUsize = AtomicUsize::new(0);
+
+struct Counting;
+
+unsafe impl GlobalAlloc for Counting {
+    unsafe fn alloc(&self, l: Layout) -> *mut u8 {
+        if l.size() > (4usize << 30) {
+            MEM_REFUSED.store(l.size(), Ordering::Relaxed);
+            return std::ptr::null_mut();
+        }
+        let p = System.alloc(l);
+        if !p.is_null() {
+            let c = MEM_CUR.fetch_add(l.size(), Ordering::Relaxed) + l.size();
+            MEM_PEAK.fetch_max(c, Ordering::Relaxed);
+        }
+        p
+    }
+    unsafe fn dealloc(&self, p: *mut u8, l: Layout) {
+        MEM_CUR.fetch_sub(l.size(), Ordering::Relaxed);
+        System.dealloc(p, l)
+    }
+    unsafe fn alloc_zeroed(&self, l: Layout) -> *mut u8 {
+        if l.size() > (4usize << 30) {
+            MEM_REFUSED.store(l.size(), Ordering::Relaxed);
+            return std::ptr::null_mut();
+        }
+        let p = System.alloc_zeroed(l);
+        if !p.is_null() {
+            let c = MEM_CUR.fetch_add(l.size(), Ordering::Relaxed) + l.size();
+            MEM_PEAK.fetch_max(c, Ordering::Relaxed);
+        }
+        p
+    }
+    unsafe fn realloc(&self, p: *mut u8, l: Layout, new: usize) -> *mut u8 {
+        if new > (4usize << 30) {
+            MEM_REFUSED.store(new, Ordering::Relaxed);
+            return std::ptr::null_mut();
+        }
+        let q = System.realloc(p, l, new);
+        if !q.is_null() {
+            if new >= l.size() {
+                let c = MEM_CUR.fetch_add(new - l.size(), Ordering::Relaxed) + (new - l.size());
+                MEM_PEAK.fetch_max(c, Ordering::Relaxed);
+            } else {
+                MEM_CUR.fetch_sub(l.size() - new, Ordering::Relaxed);
+            }
+        }
+        q
+    }
+}
+
+#[global_allocator]
+static ALLOC: Counting = Counting;
 use serde_json::{json, Value};
 use std::collections::{BTreeMap, BTreeSet};
 use std::io::Write;
@@ -37,6 +100,8 @@ pub fn run_case(p: &Profile, seed: u64, run: u64, ov: &Override, want_case: bool
         Kind::Engine => props::run_engine(p, seed, run, ov, want_case),
         Kind::Crash => crashrun::run_crash(p, seed, run, ov, want_case),
         Kind::Fault => faultrun::run_fault(p, seed, run, ov, want_case),
+        Kind::Conformance => confrun::run_conf(p, seed, run, ov, want_case),
+        Kind::Malformed => malrun::run_mal(p, seed, run, ov, want_case),
         _ => {
             let mut o = RunOut::default();
             o.run = run;
